@@ -284,6 +284,7 @@ CHECKS["C17"] = {
         {"part": "sweep-mainstream", "pkg": PRV, "test": "TestVerif_C17_SweepA", "quick": 120, "thorough": 1500},
         {"part": "sweep-bucket-gt-r", "pkg": PRV, "test": "TestVerif_C17_SweepB", "quick": 80, "thorough": 1000},
         {"part": "sweep-tiny-swarm", "pkg": PRV, "test": "TestVerif_C17_SweepC", "quick": 80, "thorough": 1000},
+        {"part": "buffered", "pkg": "./provider/buffered/", "test": "TestVerif_C17_Buffered", "quick": 1500, "thorough": 20000},
     ],
 }
 
